@@ -350,6 +350,11 @@ fn payload_nodes() -> Vec<Zoo> {
         Zoo::Chr('é'),
         Zoo::Sy(Symbol::from("hello")),
         Zoo::Sy(Symbol::from("a-b")),
+        // payload texts with blanks: to_syntax/from_syntax know nothing of the text parser's tokens
+        Zoo::Chr(' '),
+        Zoo::Sy(Symbol::from(" lead")),
+        Zoo::Sy(Symbol::from("trail ")),
+        Zoo::Sy(Symbol::from("in side")),
         Zoo::Nul(),
     ]
 }
